@@ -11,6 +11,8 @@ ENGINES = [
          kind_free_text="explicit-state BFS over the whole Teakra facade (host API + DSP-side MMIO) with snapshot/restore of the plain state and lock-step reference models"),
     dict(name="isa", path="engines/isa", serves_properties=["C01", "C03", "C04", "C08", "C09", "C10", "C20"],
          kind_free_text="single-instruction enumerator over all 65536 opcodes x bounded state alphabet; two glue libraries (implementation vs frozen reference) behind a C ABI; decode introspection through a generated recording visitor; harness-owned choice engine inside the real test generator"),
+    dict(name="text", path="engines/text", serves_properties=["C02", "C05", "C20"],
+         kind_free_text="exhaustive enumeration over all 65536 first words through the real disassembler, parser, C binding and makedsp1; decode introspection and execution through libimpl.so"),
 ]
 
 # id -> (engine, technique, level text, level note, design ref)
@@ -19,6 +21,10 @@ CLAIMED = {
             "The opcode space is enumerated completely, so every per-opcode deviation from the hardware-validated semantics that shows on some state of the alphabet is found, not only the ones a test happens to execute; the state alphabet holds every boundary value of every register-file field (incl. hidden shadow banks) one field at a time. The generator clause owns the generator's only nondeterminism (its RNG) and enumerates min/max/mid answers for every draw with bounded deviations, so the window/pc/no-abort guarantees are checked on the boundary vectors the generator can emit.",
             "Trusted: /verif/ref (frozen copy of the interpreter at the pinned, hardware-validated state plus fix: commits, sha256 recorded), the glue flattening, libstdc++'s uniform_int_distribution mapping, g++. States outside the alphabet (multi-field combinations beyond the bases) are not visited.",
             "DESIGN.md section 4, C01"),
+    "C02": ("text", "exhaustive enumeration of all 65536 first words x start addresses through the real decode table, disassembler, assembler, generator and interpreter (fetch log from the memory observer); unused-bit flips taken from the table text",
+            "The opcode space is finite and enumerated completely: row count, agreement of the four consumers on row and length, the exact fetch behaviour of one Run(1) at four start addresses (incl. above 0x1FFFF and near the end of program memory) and the invariance under every bit the table text marks Unused<> are decided for every word, not for the four opcodes the suite executes.",
+            "Trusted: gen_rec.py's parse of the INST table text (names cross-checked against the table object at run time), the memory-observer access log, g++.",
+            "DESIGN.md section 4, C02"),
     "C03": ("isa", "exhaustive enumeration of every encoding of the add/sub/compare/logic/inc/dec/neg/rnd/copy families x boundary alphabets of both operands x saturation and flag pre-states, executed on the real interpreter and compared with exact __int128 arithmetic (independent oracle)",
             "All 65536 first words are decoded and every member of the families (about 11500 encodings incl. every condition code and operand form) is run on ~160 accumulator values x 24 operand values (40-bit x 40-bit for accumulator/product operands) x sata x flag pre-state; result, untouched accumulators and all eight flags are checked against exact integer arithmetic that shares no code with the interpreter, so a defect already present at the pinned commit would also show. The thorough tier sweeps all 65536 operand values per extension path.",
             "Trusted: the 60-line exact-arithmetic oracle, the transcription of operand encodings in engines/isa/isa_spec.h, g++ __int128. Carve-outs (documented hardware quirks) are listed in the evidence and remain under C01.",
@@ -27,6 +33,10 @@ CLAIMED = {
             "Shift amounts are enumerated completely (every 16-bit sv) for one encoding per form and on a boundary set for the others, over both shift modes and saturation modes; multiply forms over 24x24 boundary factors x 4 half-word modes x product shifts x previous products, and in the thorough tier over all 2^32 factor pairs per sign selection; exponent over every (sign, run length) class. The models are exact integer arithmetic independent of the interpreter.",
             "Trusted: the exact models (shift, product, product read, exponent), isa_spec.h operand transcription, g++. Saturation after shift is taken to apply in arithmetic mode only; carry at shift amount 0 unchecked.",
             "DESIGN.md section 4, C04"),
+    "C05": ("text", "exhaustive enumeration of all 65536 first words (x 12 second words, all 65536 in the thorough tier) through the real disassembler -> parser -> disassembler round trip, execution equality through libimpl.so, C binding under every buffer size with canaries, firmware sources through makedsp1's own main vs the shipped binaries",
+            "Every renderable opcode is round-tripped and executed, every text-collision class is checked against the unused-bit masks, the C binding is driven with every buffer size 0..len+2 on a stride of opcodes (and a large size on all), and all four firmware sources are assembled and compared byte for byte with the shipped cdc.bin and walked back instruction by instruction.",
+            "Trusted: canary-based detection of out-of-buffer writes (512 guard bytes each side), makedsp1's main compiled with -Dmain=, g++. Execution equality uses 5 base states.",
+            "DESIGN.md section 4, C05"),
     "C06": ("sys", "exhaustive enumeration of every partition of the cycle budget (all 2-partitions, 3-partitions, host events at every boundary) for every program of a generated family, compared with the n x Run(1) trace of the same program on the real machine",
             "For each of ~30k generated programs (idle/busy main lines, six handler kinds, timer modes/start values/routing, second timer, audio periods and fills, mailbox/semaphore/software-IRQ events at every cycle position) the real machine is run once per slicing and its complete observable state after every slice (registers incl. hidden banks, latches, timers, audio port, ICU, APBP, stack, ordered callback log) is compared with the single-step trace. The set of slicings is enumerated completely for 2 (and 3) slices, which is where an idle fast-forward bug has to show.",
             "Trusted: snapshot/restore of the plain machine state (MMIO cell backing words are never written with unmodelled bits), g++. Programs are limited to the generated family and n<=48 cycles; the idle flag internal to a Run call is not compared.",
